@@ -235,6 +235,19 @@ Theorem C06_delivery_fragment_partial : forall loc l,
 Proof. exact place_fragment. Qed.
 Print Assumptions C06_delivery_fragment_partial.
 
+(* end-session: the post-logout target is the verified URI followed by the single parameter state — on a
+   URI without query.  FULL STATEMENT (false): for every accepted post_logout_redirect_uri; the code always
+   joins with a question mark, so a registered query swallows state (oracle signature logout-state-placement). *)
+Theorem C06_logout_state_partial : forall uri s b, utf8 s = Ok b -> has 63 uri = false -> has 35 uri = false ->
+  exists t, logout_target uri (Some s) = Ok t /\ split1_c 63 t = Some (uri, urlencode_b [(PS "state"%string, b)])
+            /\ no_c 35 t = true /\ parse_qsl_b (urlencode_b [(PS "state"%string, b)]) = [(PS "state"%string, b)].
+Proof. exact logout_target_plain. Qed.
+Print Assumptions C06_logout_state_partial.
+Example C06_logout_state_refuted :
+  exists t, logout_target (PS "https://c.example/lo?x=1"%string) (Some (PS "st"%string)) = Ok t
+            /\ parse_qsl_b (after_first 63 t) = [(PS "x"%string, PS "1?state=st"%string)].
+Proof. eexists. split; vm_compute; reflexivity. Qed.
+
 (* ================================================================== non-vacuity *)
 Definition lo4 : pystr := PS "http://127.0.0.1:8000/cb"%string.
 Example C06_nonvacuous_match :
